@@ -47,7 +47,9 @@ type RunParams struct {
 	Queries     int    `json:"queries"`
 	E2E         int    `json:"e2e"`
 	SkipPrivate bool   `json:"skip_private"`
-	Query       string `json:"query"` // via http: raw query string
+	Query       string `json:"query"`       // via http: raw query string
+	HTTPMethod  string `json:"http_method"` // via http: request method (default GET)
+	HTTPPath    string `json:"http_path"`   // via http: /traceroute (default) or /health
 	// environment
 	PubMode    string      `json:"pub_mode"`    // ok | fail | slow
 	DNS        wire.StrMap `json:"dns"`         // addr -> "name1,name2" | "!err" | "~slow:name" | "" (empty list)
@@ -150,7 +152,7 @@ func runRun(t *testing.T, s *Scenario) (evs []wire.Event) {
 			"min", rp.MinTTL, "max", rp.MaxTTL, "timeout_us", int64(rp.TimeoutMs)*1000, "delay_us", int64(rp.DelayMs)*1000, "poll_us", 100000,
 			"target", rp.Hostname, "port", rp.Port, "cancel_us", s.CancelUs, "filter", s.Script.Filter,
 			"protocol", rp.Protocol, "tcp_method", rp.TCPMethod, "queries", rp.Queries, "e2e", rp.E2E, "reverse_dns", rp.ReverseDNS,
-			"expect", expectOf(s), "expect20", expect20Of(s), "expect17", expect17Of(s), "public_ip", rp.PublicIP, "pub_mode", rp.PubMode, "skip_private", rp.SkipPrivate, "query", rp.Query, "want_v6", rp.WantV6, "paris", rp.Paris)
+			"http_method", rp.HTTPMethod, "http_path", rp.HTTPPath, "expect_status", numExtra(s, "expect_status"), "expect", expectOf(s), "expect20", expect20Of(s), "expect17", expect17Of(s), "public_ip", rp.PublicIP, "pub_mode", rp.PubMode, "skip_private", rp.SkipPrivate, "query", rp.Query, "want_v6", rp.WantV6, "paris", rp.Paris)
 		ctx, cancel := context.WithCancel(context.Background())
 		defer cancel()
 		if s.CancelUs > 0 {
@@ -164,6 +166,7 @@ func runRun(t *testing.T, s *Scenario) (evs []wire.Event) {
 		var err error
 		status := 0
 		body := ""
+		ctype := ""
 		panicked := ""
 		func() {
 			defer func() {
@@ -173,18 +176,31 @@ func runRun(t *testing.T, s *Scenario) (evs []wire.Event) {
 			}()
 			if rp.Via == "http" {
 				srv := server.VerifNewServer(tr)
-				req := httptest.NewRequest("GET", "/traceroute?"+rp.Query, nil).WithContext(ctx)
+				method := rp.HTTPMethod
+				if method == "" {
+					method = "GET"
+				}
+				path := rp.HTTPPath
+				if path == "" {
+					path = "/traceroute"
+				}
+				req := httptest.NewRequest(method, path+"?"+rp.Query, nil).WithContext(ctx)
 				rec := httptest.NewRecorder()
-				srv.TracerouteHandler(rec, req)
+				if path == "/health" {
+					srv.HealthHandler(rec, req)
+				} else {
+					srv.TracerouteHandler(rec, req)
+				}
+				ctype = rec.Header().Get("Content-Type")
 				status = rec.Code
 				body = rec.Body.String()
-				if status == 200 {
+				if status == 200 && path == "/traceroute" {
 					res = &result.Results{}
 					if e := json.Unmarshal(rec.Body.Bytes(), res); e != nil {
 						err = fmt.Errorf("harness: undecodable body: %w", e)
 						res = nil
 					}
-				} else {
+				} else if status != 200 {
 					err = fmt.Errorf("http %d: %s", status, body)
 				}
 			} else if len(s.Mix) > 0 {
@@ -259,7 +275,7 @@ func runRun(t *testing.T, s *Scenario) (evs []wire.Event) {
 		ret = append(ret, "runs", runs, "rtts_us", rtts, "pub", pub, "doc", doc, "pub_calls", fetcher.calls, "dns_calls", dc,
 			"hops", []hopOut{}, "src", "", "sport", 0, "dst", "", "dport", 0,
 			"goroutines", g, "gsample", sample, "opened", opened, "closed_once", once, "bad_handles", bad, "accepts", w.Accepts,
-			"flood_delivered", w.FloodDelivered, "body", truncate(body, 300))
+			"flood_delivered", w.FloodDelivered, "body", truncate(body, 300), "ctype", ctype)
 		w.LogEvent("Return", ret...)
 		evs = w.Events()
 	})
@@ -285,6 +301,11 @@ func expect17Of(s *Scenario) any {
 		return e
 	}
 	return map[string]any{"skip": false, "rdns": false, "routers": []string{}, "private": []bool{}}
+}
+
+func numExtra(s *Scenario, k string) int {
+	v, _ := s.Extra[k].(float64)
+	return int(v)
 }
 
 func truncate(s string, n int) string {
